@@ -314,7 +314,7 @@ def handle (j : Json) : D Json := do
     let hmax ← intF j "hmax"
     let est := suffixEstHamming 2 4 l r l.length r.length hmax 1
     let (pl, pr, flag, diff) := suffixPartition l (← natF j "probe") (← intF j "left") (← intF j "right")
-    let fs := suffixFilterSuffix f l r (← intF j "lp") (← intF j "rp") (← natF j "ln") (← natF j "rn")
+    let fs := suffixFilterSuffixN f l r (← intF j "lp") (← intF j "rp") (← natF j "ln") (← natF j "rn")
     pure (Json.mkObj [("ok", Json.mkObj [("est", encInt est), ("partition", Json.arr #[encNatList pl, encNatList pr, encInt flag, encInt diff]),
                                          ("filter_suffix", Json.bool fs)])])
   | "split_table" =>
